@@ -39,6 +39,7 @@ type fsub struct {
 	live               bool
 	unsubCalls         int
 	done               chan struct{}
+	closedSeen         bool
 }
 
 type churner struct {
